@@ -1,4 +1,5 @@
 import VOPyVerif.Proofs.AccuracyRegions
+import VOPyVerif.Proofs.IntegrationRect
 /-!
 # C05 — VOGP / ε-PAL keep ε-isolated optima; `P` is internally non-ε-dominated
 
@@ -177,5 +178,127 @@ example :
 /-- the isolation premise is not vacuous in that example: designs 1 and 2 are isolated, design 0 is not -/
 example : (List.range 3).filter (isolated (identMat 2) [1/4, 1/4] 3 exMu) = [1, 2] := by
   decide +kernel
+
+end VOPy.C05
+
+/-! # INTEGRATION — end-to-end statements about the executable decision core
+
+The theorems above take the oracles as given.  Here they are *computed* from the displayed
+rectangles by the exact geometry models: `Core.rectDom` (`Rect.isDominatedChecked`, the vertex-pair
+loop of `is_dominated` with the slack the algorithm passes), `Core.rectCov` (`Covered.rectIsCovered`,
+the LP of `is_covered`) and `Core.rectPess` (`Pess.checkDominates`, the real pessimistic test of C11 —
+the guarantees hold for any pessimistic oracle, it is instantiated so that the statement is about
+the executable core).  `Core.vogpRectCore` is `Accuracy.vogpRun` with those oracles.  The semantic
+hypotheses of `vogp_accurate_of_valid_regions` are discharged by C09 (`rect_isDominated_iff`) and
+C10 (`rect_isCovered_iff`); what is left is the premise: the true value of every living design lies
+in the rectangle displayed for it. -/
+namespace VOPy.C05
+open VOPy VOPy.Steps VOPy.Accuracy
+
+/-- **C05 end to end on the executable core, any admissible slack.**  Cone matrix `W` (non-empty,
+rows of `m` entries), a slack that passes the size guard of the rectangular predicates and is
+broadcast to `s` (`Covered.expandSlack m slack = some s`: an `m`-vector as is, a scalar repeated).  If
+in every round `r < T` every design of `S ∪ P` has a displayed rectangle of dimension `m` containing
+its true value, and `S = ∅` after round `T` of `Core.vogpRectCore`, then every `s`-isolated design is
+in the final `P` and `P` is internally non-`s`-dominated. -/
+theorem vogp_rect_end_to_end_slack (W : Mat) (slack s : Vec) (m K : Nat) (mu : Nat → Vec)
+    (hW : ∀ w ∈ W, w.length = m) (hWne : W ≠ [])
+    (hs : Covered.expandSlack m slack = some s)
+    (fresh : Nat → Nat → Core.Box) (T : Nat)
+    (hvalid : ∀ r, r < T → ∀ i,
+      (i ∈ (Core.vogpRectCore W slack K fresh r).1 ∨ i ∈ (Core.vogpRectCore W slack K fresh r).2) →
+      (fresh r i).l.length = m ∧ (fresh r i).mem (mu i) = true)
+    (hfinal : (Core.vogpRectCore W slack K fresh T).1 = []) :
+    keepsIsolated W s K mu (Core.vogpRectCore W slack K fresh T).2 = true ∧
+    internallyNondom W s mu (Core.vogpRectCore W slack K fresh T).2 = true := by
+  have hlen : ∀ (b : Core.Box) (z : Vec), b.l.length = m → b.mem z = true → z.length = m :=
+    fun b z hl hz => (Core.Box.mem_length hz).1.symm.trans hl
+  exact vogp_accurate_of_valid_regions W s K mu
+    (fun r i z => (fresh r i).l.length = m ∧ (fresh r i).mem z = true)
+    (fun k => Core.relOf (Core.rectDom W slack) (fresh k))
+    (fun k => Core.relOf (Core.rectCov W slack) (fresh k))
+    (fun k => Core.relOf (Core.rectPess W) (fresh k)) T
+    (fun r _ i j h z hz z' hz' =>
+      Core.rectDom_sound W m hW slack s (by rw [Core.rect_expandSlack_eq]; exact hs) (fresh r i) (fresh r j)
+        z z' hz.1 hz.2 hz'.2 (hlen _ z hz.1 hz.2) (hlen _ z' hz'.1 hz'.2) h)
+    (fun r _ i j h hc => by
+      obtain ⟨z, hz, z', hz', hd⟩ := hc
+      have := Core.rectCov_sound W m hW hWne slack s hs (fresh r i) (fresh r j) z z' hz.2 hz'.2
+        (hlen _ z hz.1 hz.2) (hlen _ z' hz'.1 hz'.2) h
+      rw [hd] at this
+      exact absurd this (by simp))
+    hvalid hfinal
+
+/-- **VOGP, end to end on the executable core**: slack `s = ε·u*` (any `m`-vector). -/
+theorem vogp_rect_end_to_end (W : Mat) (s : Vec) (m K : Nat) (mu : Nat → Vec)
+    (hW : ∀ w ∈ W, w.length = m) (hWne : W ≠ []) (hs : s.length = m)
+    (fresh : Nat → Nat → Core.Box) (T : Nat)
+    (hvalid : ∀ r, r < T → ∀ i,
+      (i ∈ (Core.vogpRectCore W s K fresh r).1 ∨ i ∈ (Core.vogpRectCore W s K fresh r).2) →
+      (fresh r i).l.length = m ∧ (fresh r i).mem (mu i) = true)
+    (hfinal : (Core.vogpRectCore W s K fresh T).1 = []) :
+    keepsIsolated W s K mu (Core.vogpRectCore W s K fresh T).2 = true ∧
+    internallyNondom W s mu (Core.vogpRectCore W s K fresh T).2 = true :=
+  vogp_rect_end_to_end_slack W s s m K mu hW hWne (Core.expandSlack_self m s hs) fresh T hvalid hfinal
+
+/-- **ε-PAL, end to end on the executable core**: componentwise order (`identMat m`, `m ≥ 1`), the
+scalar `ε` passed as the slack (`[ε]`) and broadcast by the guard to `ε·𝟙`. -/
+theorem epal_rect_end_to_end (m K : Nat) (hm : 0 < m) (eps : Rat) (mu : Nat → Vec)
+    (fresh : Nat → Nat → Core.Box) (T : Nat)
+    (hvalid : ∀ r, r < T → ∀ i,
+      (i ∈ (Core.vogpRectCore (identMat m) [eps] K fresh r).1 ∨
+        i ∈ (Core.vogpRectCore (identMat m) [eps] K fresh r).2) →
+      (fresh r i).l.length = m ∧ (fresh r i).mem (mu i) = true)
+    (hfinal : (Core.vogpRectCore (identMat m) [eps] K fresh T).1 = []) :
+    keepsIsolated (identMat m) (List.replicate m eps) K mu
+      (Core.vogpRectCore (identMat m) [eps] K fresh T).2 = true ∧
+    internallyNondom (identMat m) (List.replicate m eps) mu
+      (Core.vogpRectCore (identMat m) [eps] K fresh T).2 = true := by
+  apply vogp_rect_end_to_end_slack (identMat m) [eps] (List.replicate m eps) m K mu _ _ rfl fresh T
+    hvalid hfinal
+  · intro w hw
+    simp only [identMat, List.mem_map, List.mem_range] at hw
+    obtain ⟨i, _, rfl⟩ := hw
+    simp
+  · intro h
+    have : (identMat m).length = 0 := by rw [h]; rfl
+    simp [identMat] at this
+    omega
+
+/-! ### non-vacuity: two rounds evaluated by the kernel, real pessimistic test included -/
+
+private def exBoxes : Nat → Nat → Core.Box := fun r i =>
+  let h : Rat := if r = 0 then 2 else 1/8
+  ⟨(exMu i).map (· - h), (exMu i).map (· + h)⟩
+
+/-- `vogp_rect_end_to_end` on the acute cone `W = [[2,−1],[−1,2]]` with slack `(1/4,1/4)`: the displayed
+rectangles are centred at the true values, half-width 2 in round 0 (nothing decided) and 1/8 in round 1
+(design 0 leaves through the computed pessimistic set, designs 1 and 2 — both isolated — reach `P`). -/
+example :
+    Core.vogpRectCore [[2, -1], [-1, 2]] [1/4, 1/4] 3 exBoxes 1 = ([0, 1, 2], []) ∧
+    Core.vogpRectCore [[2, -1], [-1, 2]] [1/4, 1/4] 3 exBoxes 2 = ([], [1, 2]) ∧
+    keepsIsolated [[2, -1], [-1, 2]] [1/4, 1/4] 3 exMu
+      (Core.vogpRectCore [[2, -1], [-1, 2]] [1/4, 1/4] 3 exBoxes 2).2 = true ∧
+    internallyNondom [[2, -1], [-1, 2]] [1/4, 1/4] exMu
+      (Core.vogpRectCore [[2, -1], [-1, 2]] [1/4, 1/4] 3 exBoxes 2).2 = true := by
+  refine ⟨by decide +kernel, by decide +kernel, ?_⟩
+  apply vogp_rect_end_to_end [[2, -1], [-1, 2]] [1/4, 1/4] 2 3 exMu (by decide +kernel) (by decide) rfl
+  · intro r hr i hi
+    have := Core.vogpPremise_spec (fun b x => decide (b.l.length = 2) && b.mem x) 3 _ _ _ exBoxes exMu 2
+      (by decide +kernel) r hr i hi
+    simpa using this
+  · decide +kernel
+
+/-- `epal_rect_end_to_end`: same rectangles, componentwise order, scalar slack `ε = 1/4`. -/
+example :
+    Core.vogpRectCore (identMat 2) [1/4] 3 exBoxes 2 = ([], [1, 2]) ∧
+    keepsIsolated (identMat 2) (List.replicate 2 (1/4)) 3 exMu
+      (Core.vogpRectCore (identMat 2) [1/4] 3 exBoxes 2).2 = true := by
+  refine ⟨by decide +kernel, ?_⟩
+  refine (epal_rect_end_to_end 2 3 (by norm_num) (1/4) exMu exBoxes 2 ?_ (by decide +kernel)).1
+  intro r hr i hi
+  have := Core.vogpPremise_spec (fun b x => decide (b.l.length = 2) && b.mem x) 3 _ _ _ exBoxes exMu 2
+    (by decide +kernel) r hr i hi
+  simpa using this
 
 end VOPy.C05
